@@ -454,6 +454,22 @@ func Family(name string, tier string) []*Scenario {
 			}
 		}
 		out = append(out, fiveVertexFaults(thorough)...)
+		// two tasks returning ErrorSkipParents below common ancestors, with one slot: an unrelated task is still
+		// waiting for the slot when the second round of skip reports comes in
+		for _, sc := range fiveVertexFaults(thorough) {
+			nskip := 0
+			for _, scr := range sc.Scripts {
+				if len(scr) > 0 && scr[0] == "skip" {
+					nskip++
+				}
+			}
+			if nskip >= 2 {
+				c := *sc
+				c.Mode = "max1"
+				out = append(out, &c)
+			}
+		}
+		out = append(out, doubleSkipSix(thorough)...)
 		out = append(out, retryWithOtherFault(thorough)...)
 		out = append(out, runThenExtend(thorough)...)
 		out = append(out, sharedSaturated(thorough)...)
@@ -999,6 +1015,22 @@ func slotWaitCancel(thorough bool) []*Scenario {
 			}
 			out = append(out, sc)
 		}
+	}
+	return out
+}
+
+// doubleSkipSix: six vertices - q depends on a and b, which both return ErrorSkipParents; p depends on q (an ancestor
+// two levels above the skipping tasks is handed out as skipped before q is, and again after the second skip); t
+// depends on l, an unrelated branch that is still pending when the second round of skip reports comes in.
+func doubleSkipSix(thorough bool) []*Scenario {
+	var out []*Scenario
+	// a=0 b=1 q=2 p=3 l=4 t=5
+	es := [][2]int{{2, 0}, {2, 1}, {3, 2}, {5, 4}}
+	for _, mode := range []string{"par", "max2", "serial"} {
+		scr := [][]string{{"skip"}, {"skip"}, {"ok"}, {"ok"}, {"ok"}, {"ok"}}
+		sc := GraphScenario(6, es, scr, nil, mode)
+		sc.Light = 2
+		out = append(out, sc)
 	}
 	return out
 }
